@@ -144,11 +144,11 @@ func RunAVRounds(c RoundsCase) pbt.Outcome {
 
 var specAVRounds = pbt.Register(&pbt.Spec[RoundsCase]{
 	Property: "C18", Name: "C18.avrounds",
-	Rule: "E4 free-running, no race detector (speed): 2000..20000 rounds, each on a fresh AtomicValue[T] (T in {int,string,struct}): sequential prefix of 0..2 calls (half of the cases none: empty register), then 2..3 persistent goroutines run 1..2 calls " +
+	Rule: "E4 free-running, no race detector (speed): 2000..20000 rounds, each on a fresh AtomicValue[T] (T in {int,string,struct,fmt.Stringer}): sequential prefix of 0..2 calls (half of the cases none: empty register), then 2..3 persistent goroutines run 1..2 calls " +
 		"{Load, Store, Swap, CompareAndSwap; values 0..3, 0 = the zero value} at the same moment (spin barrier), then a final Load; oracle = linearizability of each round against the register model (CompareAndSwap on a never-stored register is unconstrained, " +
 		"but cannot undo a completed Store); non-trivial = sampled rounds had overlapping calls",
 	Gen: func(t *rapid.T) RoundsCase {
-		c := RoundsCase{Elem: rapid.IntRange(0, 2).Draw(t, "elem"), Procs: rapid.SampledFrom([]int{4, 8, 16}).Draw(t, "procs"),
+		c := RoundsCase{Elem: rapid.IntRange(0, 3).Draw(t, "elem"), Procs: rapid.SampledFrom([]int{4, 8, 16}).Draw(t, "procs"),
 			Rounds: rapid.SampledFrom([]int{2000, 6000, 20000}).Draw(t, "rounds")}
 		if rapid.Bool().Draw(t, "pre?") {
 			c.Pre = rapid.SliceOfN(genAOp(true), 1, 2).Draw(t, "pre")
